@@ -521,14 +521,25 @@ def run(ctx: vf.Ctx):
     import rtsim  # noqa: F401  import bqskit once, before forking (no threads exist yet)
     t0 = time.time()
     budget = float(os.environ.get("C07_BUDGET", 0)) or ctx.n(80, 1500)
+    min_cases = ncorpus + ctx.n(150, 3000)      # never fewer than this, however loaded the box is
+    hard = ctx.n(900, 7200)
     bad = False
     done = 0
     with mp.get_context('fork').Pool(min(12, os.cpu_count() or 4)) as pool:
-        for case, res in pool.imap(_pool_run, cases, chunksize=2):
+        it = pool.imap(_pool_run, cases, chunksize=1)
+        while True:
+            try:
+                case, res = it.next(timeout=max(5.0, hard - (time.time() - t0)))
+            except StopIteration:
+                break
+            except mp.TimeoutError:
+                ctx.broken_obligation('co-simulation did not finish within the hard limit', 'cases done: %d' % done)
+                pool.terminate()
+                break
             src = case.pop('_source', 'generated')
             bad |= report(ctx, case, res, src)
             done += 1
-            if time.time() - t0 > budget and done >= ncorpus:
+            if time.time() - t0 > budget and done >= min_cases:
                 pool.terminate()
                 break
     ctx.cov['cases_run'] = done
